@@ -14,11 +14,11 @@ def handler (mode : String) (line : String) : String :=
   match mode with
   | "model" =>
       match (parse line).bind caseOf? with
-      | some c => toStr (obsT (run current c))
+      | some c => if c.inRange then toStr (obsT (run current c)) else "(bad-case)"
       | none => "(bad-case)"
   | "model-original" =>
       match (parse line).bind caseOf? with
-      | some c => toStr (obsT (run original c))
+      | some c => if c.inRange then toStr (obsT (run original c)) else "(bad-case)"
       | none => "(bad-case)"
   | "oracle" =>
       match parseMany line with
